@@ -193,6 +193,12 @@ class GuardEngine:
                 return False
         return True
 
+    def _scalar_helper(self, d):
+        it = self.facts.items.get(d) or {}
+        prms = it.get("params", [])
+        return bool(prms) and all(p["pat"].get("k") == "PBind" and p["pat"].get("name") != "self" and
+                                  not is_tracked_ty(p.get("ty", "")) and not is_data_ty(p.get("ty", "")) for p in prms)
+
     # ------------------------------------------------------------------ summaries
     def summary(self, fpath):
         if fpath in self.memo:
@@ -203,6 +209,10 @@ class GuardEngine:
         it = self.facts.items.get(fpath)
         if body is None or it is None:
             return Summary()
+        if self.track_scalars and hasattr(self.facts, "inlined"):
+            # scalar-only private helpers (`ensure_scale(scale, bits)`, `admissible_bit_count(..)`) are read in place: their
+            # guards speak about values the caller computed (a modulus bit count handed down as a plain number)
+            body = self.facts.inlined(fpath, depth=1, pred=self._scalar_helper)
         self.stack.append(fpath)
         try:
             s = self._analyse(fpath, it, body)
